@@ -60,6 +60,7 @@ CONSTANTS Keys,            \* keys usable in __getitem__ / __setitem__ paths
           AttachPrefixes,  \* prefixes attach() may be called with
           QNames,          \* names used by queries and by the pipelines
           QFiner,          \* {<<name, longer name>>} for finer_match
+          QueryOn,         \* query actions enabled (they only change res; switched off where the state graph is dumped)
           Contents,        \* plaintext contents for provide()
           AppParams,       \* plaintext ApplicationParameters
           NetContents,     \* contents of Data made by the other side
@@ -508,10 +509,10 @@ N_SetItem == \E b \in DOMAIN tree, ks \in KeySeqs, kd \in Kinds : SetItem(b, ks,
 N_SetPolicy == \E p \in DOMAIN tree, pc \in PolChoices : SetPolicy(p, pc[1], pc[2])
 N_SetPolicyWrong == \E p \in DOMAIN tree : SetPolicyWrong(p)
 N_SetPrefix == \E rp \in RootPrefixes : SetPrefix(rp)
-N_QMatch == \E p \in DOMAIN tree, n \in QNames : QMatch(p, n)
-N_QFinerMatch == \E pr \in QFiner : QFinerMatch(pr[1], pr[2])
-N_QExist == \E p \in DOMAIN tree, k \in Keys : QExist(p, k)
-N_QGetPolicy == \E p \in DOMAIN tree, ty \in {pc[1] : pc \in PolChoices} : QGetPolicy(p, ty)
+N_QMatch == QueryOn /\ \E p \in DOMAIN tree, n \in QNames : QMatch(p, n)
+N_QFinerMatch == QueryOn /\ \E pr \in QFiner : QFinerMatch(pr[1], pr[2])
+N_QExist == QueryOn /\ \E p \in DOMAIN tree, k \in Keys : QExist(p, k)
+N_QGetPolicy == QueryOn /\ \E p \in DOMAIN tree, ty \in {pc[1] : pc \in PolChoices} : QGetPolicy(p, ty)
 N_Attach == \E ap \in AttachPrefixes, f \in 0..4 : Attach(ap, f)
 N_Provide == \E n \in QNames, c \in Contents, s \in BOOLEAN : Provide(n, IF c = "" THEN NoContent ELSE Plain(c), s)
 N_ProvideSeg == \E n \in QNames, ch \in SegContents, s \in BOOLEAN : ProvideSeg(n, ch, s)
